@@ -53,6 +53,7 @@ func Main(tier, replay string) {
 		return c
 	}
 	val := fam.Validators(tier)
+	col := fam.Collisions()
 	seenProject := map[string]bool{}
 	var replayID string
 	if replay != "" {
@@ -60,9 +61,13 @@ func Main(tier, replay string) {
 		replayID, _ = v.Case.(map[string]any)["id"].(string)
 	}
 	compared, accepted := 0, 0
-	for _, f := range []fam.Family{sig, typ, lay, sec, val} {
+	for _, f := range []fam.Family{sig, typ, lay, sec, val, col} {
 		var packed, singles []scen.Case
 		for i, c := range f.Cases {
+			if f.Name == "name-collision" && replayID == "" {
+				singles = append(singles, c) // literal colliding names: each project on its own
+				continue
+			}
 			if replayID != "" {
 				if c.ID == replayID {
 					singles = append(singles, c)
@@ -129,6 +134,10 @@ func Main(tier, replay string) {
 				}
 			}
 			s30, s31 := v.Schemas("3.0.0"), v.Schemas("3.1.0")
+			if f.Name == "name-collision" && v.Docs["3.0.0"] != nil && v.Docs["3.1.0"] != nil {
+				// the colliding names are literal (not namespaced) and the project holds nothing else: every component counts
+				s30, s31 = v.Docs["3.0.0"].Schemas(), v.Docs["3.1.0"].Schemas()
+			}
 			n30, n31 := fam.SortedKeys(s30), fam.SortedKeys(s31)
 			if strings.Join(n30, ";") != strings.Join(n31, ";") {
 				rep("same-components", fmt.Sprintf("3.0.0 has components %v, 3.1.0 has %v", n30, n31))
@@ -161,7 +170,7 @@ func Main(tier, replay string) {
 	run.Set("operation_and_component_pairs_compared", compared)
 	run.Sample(map[string]any{"family": "validators", "case": val.Cases[0]})
 	run.Sample(map[string]any{"family": "signature", "case": sig.Cases[len(sig.Cases)-1]})
-	run.Bound = fmt.Sprintf("signature (%d), type (%d), layout (%d), security (%d) and validator-rule (%d) scenario families; 3.0.0 vs 3.1.0 for each", len(sig.Cases), len(typ.Cases), len(lay.Cases), len(sec.Cases), len(val.Cases))
+	run.Bound = fmt.Sprintf("signature (%d), type (%d), layout (%d), security (%d) validator-rule (%d) and name-collision (%d) scenario families; 3.0.0 vs 3.1.0 for each", len(sig.Cases), len(typ.Cases), len(lay.Cases), len(sec.Cases), len(val.Cases), len(col.Cases))
 	run.Rule = "state = one scenario; transition = one run of the real pipeline generating both documents; validated = (operation | component) pairs whose dialect-neutral normal forms were compared (paths, verbs, ids, tags, parameters, bodies, response codes, refs, security, component types/properties/required/enums/composition/bounds; per project also securitySchemes, info and servers)"
 	run.Assumptions = []string{"3.0 nullable == 3.1 null type; 3.0 boolean exclusive bounds == 3.1 numeric exclusive bounds", "the content-less 'default' response of the 3.0 generator is dialect noise", "descriptions, titles and summaries are not compared"}
 	os.RemoveAll(scratch)
